@@ -17,6 +17,7 @@
 
   call modes: inplace (dst = src), disjoint / below / above (separate buffer: own allocation, directly
   below src, directly above src in one array), dstlonger (separate, (n mod 7)+1 bytes longer),
+  scratch<L> (separate, L bytes long whatever n is: a reused scratch buffer),
   short (separate, one byte shorter: must take the documented panic).
 -/
 import Driver.Util
@@ -57,7 +58,13 @@ def dstOf (c : Call) : Alias × Nat :=
   | "inplace" => (.inPlace, c.n)
   | "dstlonger" => (.disjoint, c.n + c.n % 7 + 1)
   | "short" => (.disjoint, c.n - 1)
-  | _ => (.disjoint, c.n)
+  | m =>
+    -- "scratch<L>": a separate destination of L bytes, whatever the source length
+    if m.startsWith "scratch" then
+      match (m.drop 7).toString.toNat? with
+      | some L => (.disjoint, L)
+      | none => (.disjoint, c.n)
+    else (.disjoint, c.n)
 
 /-- fold the model over a call history; `none` = some call panicked.  Result: concatenated outputs,
 whether a byte beyond `len(src)` of some destination changed, final state. -/
@@ -74,6 +81,13 @@ def runModel (c : Cipher) (de : Bool) : St → List Call → Bytes → Option (B
       | some (out, t, st2) => some (d.take src.length ++ out, touched || t, st2)
       | none => none
     | _ => none
+
+/-- some call of the history hands over a destination shorter than its (non-empty) source -/
+def anyShort : List Call → Bytes → Bool
+  | [], _ => false
+  | call :: rest, msg =>
+    let n := (msg.take call.n).length
+    (n ≥ 1 && (dstOf call).2 < n) || anyShort rest (msg.drop call.n)
 
 def showRun (r : Option (Bytes × Bool × St)) : String :=
   match r with
@@ -93,7 +107,7 @@ def cfb8 (args : List String) (obs : String) : Verdict :=
       let de := de == "1"
       let model := showRun (runModel c de (newCFB8 iv) calls msg)
       -- spec: the byte-at-a-time definition of the mode over the same block function, on the whole message
-      let hasShort := calls.any fun cl => cl.mode == "short" && cl.n ≥ 1
+      let hasShort := anyShort calls msg
       let spec : Option String :=
         if hasShort then none          -- the property says nothing about a too-short destination
         else if iv.length != c.bs then none   -- nor about an IV that is not one block long
